@@ -98,7 +98,8 @@ ProjSeq(kind, s) == [i \in 1..Len(s) |-> Proj(kind, s[i])]
 
 \* How the rest of a cursor is consumed after n plain next() calls (Iterator's provided
 \* methods, which every iterator of the crate inherits or overrides):
-\*   fin = "none" | "nth" (with index j) | "last" | "fold"
+\*   fin = "none" | "nth" (with index j) | "last" | "fold" | "find" | "any" | "all" | "position"
+\*       | "for_each" | "reduce" | "collect" | "find_map" | "min_by" | "max_by"
 \* -> [skipped: consumed silently, taken: handed to the caller, left: still in the cursor]
 FinOf(fin, j, rest) ==
   CASE fin = "none" -> [some |-> "nofin", skipped |-> <<>>, taken |-> <<>>, left |-> rest]
@@ -118,6 +119,20 @@ FinOf(fin, j, rest) ==
                        THEN [some |-> "item", skipped |-> SubSeq(rest, 1, Len(rest) - 1), taken |-> <<rest[Len(rest)]>>, left |-> <<>>]
                        ELSE [some |-> "none", skipped |-> <<>>, taken |-> <<>>, left |-> <<>>]
     [] fin = "fold" -> [some |-> "seq", skipped |-> <<>>, taken |-> rest, left |-> <<>>]
+    \* the other provided methods an iterator may override: for_each / reduce / collect hand every remaining
+    \* item to the caller (closure, accumulator, FromIterator sink); find_map(f) with f answering at index j
+    \* is find; min_by with a comparator that always says Less keeps the FIRST item and consumes the rest,
+    \* max_by with the same comparator keeps the LAST one
+    [] fin \in {"for_each", "reduce", "collect"} -> [some |-> "seq", skipped |-> <<>>, taken |-> rest, left |-> <<>>]
+    [] fin = "find_map" -> IF j < Len(rest)
+                       THEN [some |-> "item", skipped |-> SubSeq(rest, 1, j), taken |-> <<rest[j + 1]>>, left |-> SubSeq(rest, j + 2, Len(rest))]
+                       ELSE [some |-> "none", skipped |-> rest, taken |-> <<>>, left |-> <<>>]
+    [] fin = "min_by" -> IF rest # <<>>
+                       THEN [some |-> "item", skipped |-> SubSeq(rest, 2, Len(rest)), taken |-> <<rest[1]>>, left |-> <<>>]
+                       ELSE [some |-> "none", skipped |-> <<>>, taken |-> <<>>, left |-> <<>>]
+    [] fin = "max_by" -> IF rest # <<>>
+                       THEN [some |-> "item", skipped |-> SubSeq(rest, 1, Len(rest) - 1), taken |-> <<rest[Len(rest)]>>, left |-> <<>>]
+                       ELSE [some |-> "none", skipped |-> <<>>, taken |-> <<>>, left |-> <<>>]
 
 Episode(kind, order, n, total, f) ==
   [yield |-> ProjSeq(kind, Prefix(order, n)),
